@@ -7,13 +7,14 @@ Local Open Scope string_scope.
 Local Open Scope list_scope.
 
 (* which variant of the model the implementation under test is expected to follow:
-   [as_found] for the unchanged tree.  With fix-rename-front-matter.patch applied the
-   correspondence expects fx_meta := true, with fix-rename-dangling.patch fx_dangling := true
-   (both: FX false true true; findings F-C08-frontmatter / F-C08-dangling then become `fixed:`).
+   [as_found] for the unchanged tree.  /repo has the repairs fx_meta (dae68d5, the front matter
+   moves with the note), fx_dangling (b92b513, a link to no note is refused) and fx_subdir (the
+   new name is read once, from the directory of the note that holds the cursor; findings
+   F-C08-frontmatter / F-C08-dangling / F-C08-subdir are `fixed:`).
    fx_label has no patch: the obvious repair (keep the text in GraphInline::change_key) fails
    the unedited test rename_inline_references, which pins `[](1) text` -> `[](new_name) text`
    after the text was refreshed to the title. *)
-Definition impl_fixes : fixes := FX false true true.
+Definition impl_fixes : fixes := FX false true true true.
 
 Definition after_note := (string * string * res (option string * list dblock))%type.   (* stem, text, re-read *)
 
@@ -169,9 +170,12 @@ Section Attempt.
 
   Let B := before_notes c.
   Let keys := map bn_key B.
-  Let newk := key_from_file_name (at_new a).
-  Let taken := mem newk keys.
   Let rel := key_parent (at_doc a).
+  (* the key the new name stands for: the name is typed over the placeholder of prepare-rename,
+     which is the url of the link as written, so it is read like that url - from the directory
+     of the note that holds the cursor (one `.md` off, joined, normalised) *)
+  Let newk := from_rel_link_url (at_new a) rel.
+  Let taken := mem newk keys.
   (* titles that formatting copies into link texts: none contains a link, all are inert text *)
   Let lib_titles_plain :=
     negb (existsb title_has_link (lc_notes (rc_lib c))) &&
@@ -203,14 +207,12 @@ Section Attempt.
     match snd n with Ok r => Some r | Panic _ => None end.
 
   (* ----- classifiers of the call: (library, site, new name) ----- *)
-  (* 1: the cursor is in a note of a sub-directory *)
-  Definition k_subdir_site : bool := negb (sempty rel).
   (* 5: the link under the cursor names no note *)
   Definition k_dangling : bool := match target with Some k => negb (mem k keys) | None => false end.
-  (* 7a: the new name is not written the way its key is (`./x`, `x/`, `a//b`) *)
-  Definition k_new_not_key : bool := negb (String.eqb (from_rel_link_url (at_new a) rel) newk).
+  (* (class 1, the cursor in a note of a sub-directory, and class 7a, a new name not written the
+     way its key is, are gone with their defect: handle_rename reads the new name once) *)
   Definition call_class : option N :=
-    first_class [(k_subdir_site, 1%N); (k_dangling, 5%N); (k_new_not_key, 7%N)].
+    first_class [(k_dangling, 5%N)].
 
   (* ----- classifiers of one occurrence [x] (before) in note [b], for the rename of [k] ----- *)
   Definition touches (k : string) (b : bnote) (x : lnk) : bool :=
@@ -364,7 +366,7 @@ Definition debug_occ (c : rcase) (a : attempt) :=
   match target a, at_after a with
   | Some k, Some A =>
       flat_map (fun b =>
-        let key' := if String.eqb (bn_key b) k then key_from_file_name (at_new a) else bn_key b in
+        let key' := if String.eqb (bn_key b) k then from_rel_link_url (at_new a) (key_parent (at_doc a)) else bn_key b in
         match find_after A key' with
         | Some n => match reread_of n with
                     | Some (_, bs') =>
